@@ -14,6 +14,11 @@
         18 roundtrip                -> []   crate: sketch := deserialize(serialize(sketch)); model: unchanged, except
                                             that the copy always owns a (possibly empty) table  (C11)
         19 ser       [seed_hash]    -> the bytes of serialize()   (not produced by the model: masked; C12 oracle)
+        40 deser     [bytes...]     -> crate only (masked): [0] = Err | 1 :: float-free dump of the Ok value, which is then
+                                       used (estimate, validate, updates, serialize, union); C14 oracle
+        41 mut_deser [kind; pos; val] -> as 40 on a mutation of the current sketch's own image (kind 0 flip bit pos,
+                                       1 set byte pos := val, 2 truncate to pos, 3 set the u32 at int index pos := val,
+                                       4 append val bytes, 5 set two bytes)
         30 big       [lg_k; full_cols; extra] -> [C; flavor; offset; validate; 1; C'; 1]
                      a fresh sketch receives full_cols complete columns 0.. and [extra] rows of the next column
                      (all pairs distinct, rows in a scrambled order), is serialized and deserialized; C' is the
@@ -39,7 +44,7 @@
         23 un_result [uslot; slot]         -> sk_dump of to_sketch(), which is stored in [slot]
    kxp / HIP are not observed on this path: the accumulator's float registers depend on the order in which
    the source's hash-table slots are walked, and are dead once merge_flag is set. *)
-From DS Require Import Base.Prelude Base.FloatBits Model.Cpc Model.CpcUnion Model.CpcPhase Spec.CpcLayout.
+From DS Require Import Base.Prelude Base.FloatBits Model.Cpc Model.CpcUnion Model.CpcPhase Model.CpcCheck Spec.CpcLayout.
 From Coq Require Import Floats FSets.FMapPositive.
 Open Scope Z_scope.
 
@@ -97,6 +102,7 @@ Definition step (cfg : list Z) (st : cstate) (o : zop) : cstate * list Z :=
   | 0 => match cpc_new (zN (nth 0 cfg 0)) with Ok s => (set_cur st (Some s), []) | _ => (set_cur st None, PANIC) end
   | 6 => (st, [Nz (determine_flavor (zN a0) (zN a1))])
   | 9 => (st, match determine_pseudo_phase (zN a0) (zN a1) with Ok p => [Nz p] | _ => PANIC end)
+  | 40 | 41 => (st, [])
   | 30 => let lgk := zN a0 in let c := (zN a1 * 2 ^ lgk + zN (nth 2 a 0%Z))%N in
           (st, [Nz c; Nz (determine_flavor lgk c); Nz (determine_correct_offset lgk c); 1; 1; Nz c; 1])
   | 7 => (st, [Nz (determine_correct_offset (zN a0) (zN a1))])
@@ -477,4 +483,38 @@ Fixpoint layout_from (lgk : N) (st : ospec) (kxp hip : Z) (ops : list zop) (obs 
 Definition layout_ok (c : case) : bool :=
   layout_from (zN (nth 0 (c_cfg c) 0)) o_empty 0 0 (c_ops c) (c_obs c).
 
-Definition oracles : list (Z * (case -> bool)) := [(0, prop_ok); (1, union_ok); (2, extremes_ok); (3, layout_ok)].
+(* ------------------------------------------------------------------------------------------------
+   Oracle of the C14 leg: deserialize of arbitrary / mutated bytes never panics, and a value returned as Ok
+   passes the executable invariant check (Model/CpcCheck.v, sound by Proofs/CpcCheckProofs.v), so that it
+   can be used like any sketch built by updates. *)
+Definition state_of_dump (ob : list Z) : cpc :=
+  (* ob = lg_k; C; off; fic; flavor; merge; |win|; win..; |tab|; tab.. *)
+  let nwin := Z.to_nat (nth 6 ob 0) in
+  let win := map zN (firstn nwin (skipn 7 ob)) in
+  let tab := map zN (skipn (8 + nwin) ob) in
+  mkCpc (zN (zat ob 0)) (zN (zat ob 3)) (zN (zat ob 1)) (Some tab) (zN (zat ob 2)) win (zat ob 5 =? 1) zero zero.
+
+Definition deser_obs_ok (ob : list Z) : bool :=
+  negb (list_eqb Z.eqb ob PANIC) &&
+  match ob with
+  | [0] => true
+  | 1 :: d =>
+      forallb (fun x => 0 <=? x) d &&
+      (Z.of_nat (length d) =? 8 + nth 6 d 0 + nth (7 + Z.to_nat (nth 6 d 0)) d 0) &&
+      inv_check (state_of_dump d) &&
+      (zN (zat d 4) =? cpc_flavor (state_of_dump d))%N
+  | _ => false
+  end.
+
+Fixpoint malformed_from (ops : list zop) (obs : list (list Z)) : bool :=
+  match ops, obs with
+  | (code, a) :: r, ob :: obr =>
+      (if (code =? 40) || (code =? 41) then deser_obs_ok ob else negb (list_eqb Z.eqb ob PANIC))
+      && malformed_from r obr
+  | _, _ => true
+  end.
+
+Definition malformed_ok (c : case) : bool := malformed_from (c_ops c) (c_obs c).
+
+Definition oracles : list (Z * (case -> bool)) :=
+  [(0, prop_ok); (1, union_ok); (2, extremes_ok); (3, layout_ok); (4, malformed_ok)].
